@@ -41,6 +41,16 @@ def all_estimators_job():
              "sorted": True, "admissible": True, "wantV": ["gammadet"], "wantE": allests}, {})
 
 
+def custom_kinds_job():
+    """A complex-valued custom variable and a custom estimator whose result is a 0-d array."""
+    scal = O.IN_SCALARS + ["cpx"]
+    return ({"hist": [{"op": "call", "vars": ["cpx"], "ests": ["int0d", "p5"]}], "init_order": [3, 1, 2], "tkeys": ["t"],
+             "cols": [{"kind": "in", "name": c, "of": "", "e": ""} for c in O.IN_SCALARS + O.IN_OTHERS]
+             + [{"kind": "var", "name": "cpx", "of": "", "e": ""}]
+             + [{"kind": "est", "name": c + "_" + e, "of": c, "e": e} for c in scal for e in ("int0d", "p5")],
+             "sorted": True, "admissible": True, "wantV": ["cpx"], "wantE": ["int0d", "p5"]}, {})
+
+
 def run(tier, seed, pid="C14"):
     run = Run(pid, tier, seed)
     r1 = O.run_spec(2)
@@ -70,6 +80,7 @@ def run(tier, seed, pid="C14"):
     jobs = [(b, {}) for b in beh]
     jobs += driver_jobs()
     jobs.append(all_estimators_job())
+    jobs.append(custom_kinds_job())
     res = O.pmap(O.check_behaviour, jobs)
     for (b, kw), fnds in zip(jobs, res):
         calls = [h for h in b["hist"] if h["op"] == "call"]
